@@ -509,7 +509,7 @@ PB(n, s, c) ==
       [] n.k = "Restreamed" ->
             LET r == P(n.sub, Rs(s, n.dec, n.dunit, n.enc, n.eunit), c) IN
             IF ~r.ok THEN [r EXCEPT !.s = r.s.sub]
-            ELSE IF ~RsCloseOk(r.s) THEN RErr("ValueError", r.s.sub, r.c, r.ev)
+            ELSE IF ~RsCloseOk(r.s) THEN RErr("StreamError", r.s.sub, r.c, r.ev)
             ELSE [r EXCEPT !.s = r.s.sub]
       [] n.k = "ProcessXor" ->
             Then(EvalR(n.key, s, c), LAMBDA key :
@@ -935,7 +935,7 @@ BB(n, obj, s, c) ==
       [] n.k = "Restreamed" ->
             LET r == B(n.sub, obj, Rs(s, n.dec, n.dunit, n.enc, n.eunit), c) IN
             IF ~r.ok THEN [r EXCEPT !.s = r.s.sub]
-            ELSE IF ~RsCloseOk(r.s) THEN RErr("ValueError", r.s.sub, r.c, r.ev)
+            ELSE IF ~RsCloseOk(r.s) THEN RErr("StreamError", r.s.sub, r.c, r.ev)
             ELSE [r EXCEPT !.s = r.s.sub, !.v = obj]
       [] n.k = "ProcessXor" ->
             Then(EvalR(n.key, s, c), LAMBDA key :
